@@ -288,3 +288,36 @@ func TestReplay_TokenSequence(t *testing.T) {
 		}
 	}
 }
+
+func TestReplay_PrefixAndUnaliased(t *testing.T) {
+	// with a PackagePrefix, an import that is written without an alias must be referenced by the name the
+	// package really has (std table or ImportName); an aliased one by its alias
+	cases := []struct{ path, realName string }{{"archive/tar", "tar"}, {"fmt", "fmt"}, {"math/rand", "rand"}, {"encoding/json", "json"}}
+	for _, prefix := range []string{"", "pkg"} {
+		for _, c := range cases {
+			f := NewFile("p")
+			f.PackagePrefix = prefix
+			f.NoFormat = true
+			f.Func().Id("m").Params().Block(Qual(c.path, "X").Call())
+			out := fmt.Sprintf("%#v", f)
+			got, _, _, err := parsedImports(t, out)
+			if err != nil || len(got) != 1 {
+				t.Errorf("FAILING INPUT: PackagePrefix=%q Qual(%q): output does not parse or has %d imports: %v\n%s", prefix, c.path, len(got), err, out)
+				continue
+			}
+			aliased := strings.Contains(out, " \""+c.path+"\"") && !strings.Contains(out, "import \""+c.path+"\"") && !strings.Contains(out, "\n\""+c.path+"\"")
+			if !aliased && !strings.Contains(out, c.realName+".X") || !aliased && strings.Contains(out, "_"+c.realName+".X") {
+				t.Errorf("FAILING INPUT: PackagePrefix=%q Qual(%q): imported without an alias but not referenced as %s.X:\n%s", prefix, c.path, c.realName, out)
+			}
+		}
+		f := NewFile("p")
+		f.PackagePrefix = prefix
+		f.NoFormat = true
+		f.ImportName("example.com/yaml.v2", "yaml")
+		f.Func().Id("m").Params().Block(Qual("example.com/yaml.v2", "X").Call())
+		out := fmt.Sprintf("%#v", f)
+		if strings.Contains(out, "import \"example.com/yaml.v2\"") && !strings.Contains(out, "\nyaml.X") && !strings.Contains(out, "{\nyaml.X") {
+			t.Errorf("FAILING INPUT: PackagePrefix=%q ImportName(yaml): imported without an alias but not referenced as yaml.X:\n%s", prefix, out)
+		}
+	}
+}
